@@ -44,4 +44,9 @@ impl Item {
     #[verifier::external_body] pub fn new_opaque_type(with_id: ItemId, ty: &clang::Type, ctx: &mut BindgenContext) -> (r: TypeId) { unimplemented!() }
 }
 
+// `v.drain(from..).collect::<Vec<_>>()`: the tail of the vector, removed from it (Vec::drain panics when from > len)
+#[verifier::external_body] pub fn vec_drain_from(v: &mut Vec<TypeId>, from: usize) -> (r: Vec<TypeId>)
+    requires from <= old(v)@.len(),
+    ensures r@ == old(v)@.subrange(from as int, old(v)@.len() as int), final(v)@ == old(v)@.subrange(0, from as int) { unimplemented!() }
+
 } // verus!
